@@ -51,9 +51,10 @@ def gen(rng, tier):
         cases.append(["cond %d %d" % (w, 20 if tier == "quick" else 400)])
     # copies of started function threads (join and finished() through the copy, original destroyed first in `cpd`)
     for n in ([1, 3] if tier == "quick" else [1, 2, 3, 5, 8]):
-        cases.append(["thr cpy %d %d" % (n, 3 if tier == "quick" else 40), "thr cpd %d %d" % (n, 3 if tier == "quick" else 40)])
+        cases.append(["thr cpy %d %d" % (n, 3 if tier == "quick" else 40), "thr cpd %d %d" % (n, 3 if tier == "quick" else 40), "thr cpj %d 2" % n])
     # ranges at the ends of the int range: the index i += n must not wrap
-    for (a, b) in [(2147483637, 2147483647), (2147483640, 2147483647), (-2147483648, -2147483640), (2147483646, 2147483647)]:
+    for (a, b) in [(2147483637, 2147483647), (2147483640, 2147483647), (-2147483648, -2147483640), (2147483646, 2147483647),
+                   (2147483647, -2147483647), (2147483645, -2147483645), (2147483647, -2147483648), (7, -2147483648), (5, 5), (9, 5)]:
         for nth in ([1, 3, 8] if tier == "quick" else [1, 2, 3, 5, 8, 12]):
             cases.append(["pfx %d %d %d" % (a, b, nth)])
     for kinds in (["t", "u", "tt", "ut", "ttt", "utu"] if tier == "quick" else ["t", "u", "tt", "ut", "tu", "ttt", "utu", "tttt", "uutt", "tttttt"]):
